@@ -75,7 +75,7 @@ type observed struct {
 func init() {
 	vlib.Register(&vlib.Check{
 		ID: "C21", Engine: "E2",
-		Rule: "finite space, enumerated completely: helper = /bin/sh that exits with every code 0..255 or kills itself with every terminating signal (1..31 except CHLD CONT STOP TSTP TTIN TTOU URG WINCH; each helper is first run directly by the harness to confirm it really ends that way) x form {alone, `h; exitnum`, `h && out next`, `h || out alt`, `try { h; out after }`, `trypipe { h; out after }`} x launcher {sh, /bin/sh, exec sh (thorough only: the last two)} x seam {in-process fork, `murex -c` with a binary built from the working tree by the check: `alone` one murex process per case (its exit status is the observation), the other forms of a worker batched into one murex process and judged on stdout (quick: codes 0 1 2 3 126 127 128 129 137 255 and all signals; thorough: everything)}; oracle from the statement: normal exit => exit number == code; signal death => exit number != 0; `&&` continues / `||` alternative / rest of try block run exactly according to failed = (code != 0 or signal); non-trivial = helper does not exit 0 (a status has to be propagated)",
+		Rule: "finite space, enumerated completely: helper = /bin/sh that exits with every code 0..255 or kills itself with every terminating signal (1..31 except CHLD CONT STOP TSTP TTIN TTOU URG WINCH; each helper is first run directly by the harness to confirm it really ends that way) x form {alone, `h; exitnum`, `h && out next`, `h || out alt`, `try { h; out after }`, `trypipe { h; out after }`} x launcher {sh, /bin/sh, exec sh (thorough only: the last two)} x seam {in-process fork, `murex -c` with a binary built from the working tree by the check: `alone` one murex process per case (its exit status is the observation), the other forms of a worker batched into one murex process and judged on stdout (quick: codes 0 1 2 127 128 255 and signals 1 2 3 6 9 11 13 15; thorough: everything)}; oracle from the statement: normal exit => exit number == code; signal death => exit number != 0; `&&` continues / `||` alternative / rest of try block run exactly according to failed = (code != 0 or signal); non-trivial = helper does not exit 0 (a status has to be propagated)",
 		Run:    run,
 		Replay: replay,
 		Assumptions: []string{
@@ -118,7 +118,18 @@ func runBinary(c *vlib.Ctx, block string, ceiling time.Duration) observed {
 }
 
 // selfCheck runs the helper directly and confirms it ends the way the case assumes.
+var selfChecked = map[helper]bool{}
+
 func selfCheck(c *vlib.Ctx, h helper) bool {
+	if ok, done := selfChecked[h]; done {
+		return ok
+	}
+	ok := selfCheck1(c, h)
+	selfChecked[h] = ok
+	return ok
+}
+
+func selfCheck1(c *vlib.Ctx, h helper) bool {
 	cmd := exec.Command("/bin/sh", "-c", h.shell())
 	cmd.Dir = c.WorkDir
 	cmd.Run()
@@ -144,7 +155,8 @@ func judge(h helper, f string, o observed) (clause, detail string) {
 	failed := h.failed()
 	bad := func(base, d string) (string, string) {
 		if sig {
-			return "signal-" + base, d
+			// one clause for every form: it is one mechanism (the wait status of a signalled child is dropped)
+			return "signal-is-failure", "[" + base + "] " + d
 		}
 		return "exit-" + base, d
 	}
@@ -189,7 +201,8 @@ func judge(h helper, f string, o observed) (clause, detail string) {
 	return "", ""
 }
 
-var binarySubset = map[int]bool{0: true, 1: true, 2: true, 3: true, 126: true, 127: true, 128: true, 129: true, 137: true, 255: true}
+var binarySubset = map[int]bool{0: true, 1: true, 2: true, 127: true, 128: true, 255: true}
+var binarySignals = map[int]bool{1: true, 2: true, 3: true, 6: true, 9: true, 11: true, 13: true, 15: true}
 
 func helpers() []helper {
 	var hs []helper
@@ -222,7 +235,7 @@ func run(c *vlib.Ctx) {
 	for _, h := range helpers() {
 		for l := 0; l < nl; l++ {
 			for _, seam := range []string{"inproc", "binary"} {
-				if seam == "binary" && c.Quick() && h.signal == 0 && !binarySubset[h.code] {
+				if seam == "binary" && c.Quick() && (h.signal == 0 && !binarySubset[h.code] || h.signal != 0 && !binarySignals[h.signal]) {
 					continue
 				}
 				for _, f := range forms {
